@@ -309,6 +309,10 @@ func (g *G) BoolPred(d int, env *Env) Expr {
 		return relPath()
 	case 1: // = / != against a string literal
 		f := flat()
+		if g.Chance(0.3) {
+			// the node-set operand on any axis (parent, ancestors, absolute paths ...): it has to be rewound for every candidate
+			f = relPath()
+		}
 		lit := str(g.DirectedString(denot(f, env)))
 		if g.Chance(0.4) {
 			return bin(g.Pick("=", "!="), lit, f) // the literal on the left: existential over the node-set all the same
